@@ -20,9 +20,9 @@ def jobs(tier, ctx):
     for (op, rev) in (('F_INDEX', 0), ('F_RINDEX', 1)):
         for ln in ((0, 2) if tier == 'quick' else (0, 1, 2, 3)):
             # quick: the in-range positions and concrete out-of-range probes (the symbolic out-of-range classes cost 200 s / 11 GB
-            # each and run in C03's quick tier and in this property's thorough tier)
+            # each and run in C03's thorough tier)
             probes = [('i%s' % str(k).replace('-', 'm'), ['NUMK0=%dLL' % k]) for k in (-1, ln, ln + 1, 4294967296, 4294967296 + ln - 1, -4294967296)]
-            for (tag, d) in ([c for c in vm.index_classes(ln, rev) if c[0].startswith('pos')] + probes if tier == 'quick' else vm.index_classes(ln, rev)):
+            for (tag, d) in ([c for c in vm.index_classes(ln, rev) if c[0].startswith('pos')] + probes):
                 j = vm.step_job(ctx, 'step', op, ['NUM', 'ARRM'], oracle=['INDEXREF'], extra_defs=['LENK1=%d' % ln, 'INDEXREF_REVERSE=%d' % rev] + d, tag='typed.len%d.%s' % (ln, tag), typed_arrays=8, mem=(11 if tag in ('below', 'above') else 4), timeout=(1500 if tag in ('below', 'above') else 300))
                 if j:
                     j['opt_witness'] = j['opt_witness'] + ['index_in_range', 'index_out_of_range']
